@@ -22,6 +22,7 @@
 #include <cstdarg>
 #include <fstream>
 #include <map>
+#include <set>
 #include <sstream>
 #include <unordered_map>
 
@@ -611,7 +612,18 @@ public:
       exit_class_hist[k] = 0;
   }
 
+  // Classes decided by the property this run serves (empty = all). A
+  // failure of another property's class is noted and the ledger carries on:
+  // it must not hide a violation of the property that is being decided (a
+  // broken task graph is C07's business, but the lost conservation that
+  // follows from it is C04's).
+  std::set< std::string > my_classes;
+  std::set< std::string > foreign_classes_seen;
   void fail(const std::string &vclass, const std::string &msg) {
+    if (!my_classes.empty() && !my_classes.count(vclass)) {
+      foreign_classes_seen.insert(vclass);
+      return;
+    }
     if (!failed) {
       failed = true;
       violation.vclass = vclass;
